@@ -55,7 +55,8 @@ class Regime:
 def cells(kind, dims, ids):
     """Data array for the matrix axes ``dims`` (sequence of axis names or 'phase'/'pad'), ids per axis name.
 
-    kind 'float': id-coded (taxon + 1000*variant/2nd taxon + 1e6*trait + 0.25*phase); kind 'int8': allele-like codes.
+    kind 'float': id-coded (taxon + 1000*variant/2nd taxon + 1e6*trait + 0.25*phase); kind 'int8': allele-like codes
+    0..2 (hash of all ids of the cell).
     """
     grids = []
     shape = []
@@ -67,10 +68,13 @@ def cells(kind, dims, ids):
         grids.append(v); shape.append(len(v))
     mesh = numpy.meshgrid(*grids, indexing="ij") if len(grids) > 1 else [grids[0]]
     if kind == "int8":
-        out = numpy.zeros(shape, dtype=float)
-        for k, (d, g) in enumerate(zip(dims, mesh)):
-            out = out + g * (3, 5, 7, 11)[k]
-        return (out % 3).astype("int8")
+        # allele-like codes 0..2 from an integer hash of ALL ids meeting in the cell (a linear form mod 3 would make the
+        # cell independent of some axes, e.g. of the taxon, and hide a permutation applied to the data only)
+        h = numpy.zeros(shape, dtype="int64")
+        for k, g in enumerate(mesh):
+            h = h ^ ((g.astype("int64") + 1) * (73856093, 19349663, 83492791, 2971215073)[k])
+        h = ((h ^ (h >> 13)) % 2147483647) * 1274126177 % 2147483647
+        return ((h >> 5) % 3).astype("int8")
     out = numpy.zeros(shape, dtype=float)
     seen = {}
     for d, g in zip(dims, mesh):
